@@ -66,12 +66,8 @@ theorem view_channels {s : Srv} {b : Bot} (hc : Coupled s b) (k : Str) :
 
 /-- members, status flags, topic, modes and bans of every channel the bot is on -/
 theorem view_channel {s : Srv} {b : Bot} (hc : Coupled s b) {k : Str} {sc : SChan} (hs : aget s.chans k = some sc)
-    (hb : sc.has s.botKey = true) : ∃ ch, aget b.channels k = some ch ∧ ChanMatches sc ch := by
-  have h := hc.chans k
-  rw [hs] at h
-  cases hbc : aget b.channels k with
-  | none => rw [hbc] at h; simp only [ChanRel] at h; rw [hb] at h; cases h
-  | some ch => rw [hbc] at h; exact ⟨ch, rfl, h.2⟩
+    (hb : sc.has s.botKey = true) : ∃ ch, aget b.channels k = some ch ∧ ChanMatches sc ch :=
+  view_channel' hc hs hb
 
 /-- when the bot is no longer on a channel (left, kicked, reconnected) its record of it is gone -/
 theorem view_channel_gone {s : Srv} {b : Bot} (hc : Coupled s b) (k : Str)
